@@ -736,4 +736,41 @@ theorem prettyItemsL_mapScope (c : Cfg) (i : Subst → PStr → PStr) (h : c.ent
     simp only [prettyItemsL, mapScopeL, ← prettyItems_mapScope c i h lv lit par k, ← prettyItemsL_mapScope c i h lv lit par ks]
 end
 
+/-! ### flavour walk and sessions -/
+
+theorem isXmlOf_eq (chain : List (Option Bool)) (r : Bool) : isXmlOf chain r = ((chain.filterMap id).head?).getD r := by
+  induction chain with
+  | nil => simp [isXmlOf]
+  | cons x xs ih => cases x <;> simp [isXmlOf, ih]
+
+theorem runSession_docs (R X : List (Option PStr × Cfg)) (i : Subst → PStr → PStr) (ops : List HOp) :
+    ∀ docs, (runSession R X i docs ops).1 = (runSession R X i docs (ops.filter HOp.isEdit)).1 := by
+  induction ops with
+  | nil => intro docs; rfl
+  | cons op ops ih =>
+    intro docs
+    cases op with
+    | edit f => simp only [runSession, HOp.isEdit, List.filter_cons_of_pos]; exact ih (f docs)
+    | render d p a m =>
+      simp only [runSession, HOp.isEdit, Bool.false_eq_true, not_false_eq_true, List.filter_cons_of_neg]; exact ih docs
+
+theorem runSession_last (R X : List (Option PStr × Cfg)) (i : Subst → PStr → PStr) (ops : List HOp) (d : Nat) (p : List Nat)
+    (a : FmtArg) (m : Mode) :
+    ∀ docs, (runSession R X i docs (ops ++ [.render d p a m])).2.getLast?
+      = some (match ((runSession R X i docs ops).1)[d]? with
+              | some doc => doc.renderAt R X p a i m
+              | none => .badReceiver) := by
+  induction ops with
+  | nil => intro docs; simp [runSession]; rfl
+  | cons op ops ih =>
+    intro docs
+    cases op with
+    | edit f => simp only [List.cons_append, runSession]; exact ih (f docs)
+    | render d' p' a' m' =>
+      simp only [List.cons_append, runSession]
+      have := ih docs
+      cases h : (runSession R X i docs (ops ++ [.render d p a m])).2 with
+      | nil => rw [h] at this; simp at this
+      | cons y ys => rw [h] at this; simp only [List.getLast?_cons_cons]; exact this
+
 end BS.Formatter
